@@ -18,8 +18,9 @@ def n_spawns(case: dict) -> int:
 
 
 def _c01() -> SimEngine:
-    prof = profile(sizes=FIN, ops={"set_size": 0, "cancel": 2, "cancel_group": 1.2, "flush": 1, "close": 0.3, "spawn": 9})
-    emb = profile(sizes=FIN, p_embedded=0.4, ops={"spawn": 9, "cancel": 2})
+    prof = profile(sizes=FIN, p_cb_raise=0.12, p_worker_raise=0.1, p_callfault=0.1,
+                   ops={"set_size": 0, "cancel": 2, "cancel_group": 1.2, "flush": 1, "close": 0.3, "spawn": 9})
+    emb = profile(sizes=FIN, p_embedded=0.4, p_cb_raise=0.1, ops={"spawn": 9, "cancel": 2})
     return SimEngine(
         "C01",
         "programs: 1 pool of fixed size in {0,1,2,3,4,inf}, <=30(quick)/60 steps over spawn/cancel/cancel_group/cancel_all/stop/flush/"
@@ -71,10 +72,10 @@ def _c03() -> SimEngine:
 
 
 def _c04() -> SimEngine:
-    prof = profile(kinds=["apply"], sizes=[1, 1, 2, 2, 3, None], p_callfault=0.2,
+    prof = profile(kinds=["apply"], sizes=[1, 1, 2, 2, 3, None], p_callfault=0.2, p_cb_raise=0.12, p_worker_raise=0.1, p_gname=0.3,
                    ops={"lock": 1.2, "unlock": 0.8, "close": 0.8, "cancel": 1, "cancel_group": 0.5, "flush": 0.5, "spawn": 8, "gate": 8},
                    end_with_close=0.3)
-    simple = profile(classes=["SimpleTaskPool"], sizes=[1, 2, 2, 3, None], p_callfault=0.2,
+    simple = profile(classes=["SimpleTaskPool"], sizes=[1, 2, 2, 3, None], p_callfault=0.2, p_cb_raise=0.12, p_worker_raise=0.1,
                      ops={"lock": 1.2, "unlock": 0.8, "close": 0.8, "cancel": 1, "stop": 0.6, "spawn": 8, "gate": 8}, end_with_close=0.3)
     return SimEngine(
         "C04",
@@ -90,6 +91,7 @@ def _c04() -> SimEngine:
 
 def _c05() -> SimEngine:
     prof = profile(kinds=["map", "starmap", "doublestarmap"], classes=["TaskPool"], sizes=[1, 2, 3, 4, None, None], p_callfault=0.25,
+                   p_cb_raise=0.12, p_worker_raise=0.1, p_iter_raise=0.08,
                    ops={"cancel": 2, "cancel_group": 0.4, "flush": 0.5, "gate": 10, "spawn": 7, "close": 0.2, "stop": 0},
                    cancel_refs=["run", "live", "live"])
     return SimEngine(
@@ -104,8 +106,9 @@ def _c05() -> SimEngine:
 
 
 def _c06() -> SimEngine:
-    prof = profile(p_cb=0.6, p_cb_wait=0.5, p_swallow=0.2, p_cleanup=0.15,
-                   ops={"cancel": 9, "flush": 1.5, "cancel_group": 0.5, "spawn": 7, "tick": 7, "gate": 5, "stop": 0.5})
+    prof = profile(p_cb=0.6, p_cb_wait=0.5, p_swallow=0.2, p_cleanup=0.15, p_worker_raise=0.15, p_cb_raise=0.05,
+                   ops={"cancel": 9, "flush": 2.5, "cancel_group": 0.5, "spawn": 7, "tick": 7, "gate": 5, "stop": 0.5, "close": 0.3},
+                   cancel_refs=["run", "run", "run", "live", "stale", "never", "neg", "incb", "incb", "any"])
 
     def sw(tier: str):
         perts = []
@@ -219,7 +222,7 @@ def _c11() -> SimEngine:
 
 
 def _c13() -> SimEngine:
-    prof = profile(p_cb=0.8, p_cb_async=0.7, p_cb_wait=0.6, sizes=[1, 2, 3, None], p_worker_raise=0.25,
+    prof = profile(p_cb=0.8, p_cb_async=0.7, p_cb_wait=0.6, sizes=[1, 2, 3, None], p_worker_raise=0.25, p_iter_raise=0.15, p_cb_raise=0.08,
                    ops={"flush": 6, "cancel": 4, "cancel_group": 1, "spawn": 8, "gate": 7, "tick": 7, "stop": 1})
 
     def sw(tier: str):
@@ -246,8 +249,8 @@ def _c13() -> SimEngine:
 
 
 def _c14() -> SimEngine:
-    prof = profile(classes=["SimpleTaskPool"], sizes=[3, 4, None, None, None], max_num=6,
-                   ops={"spawn": 7, "stop": 8, "cancel": 3, "gate": 8, "tick": 6, "flush": 0.5, "cancel_group": 0.3},
+    prof = profile(classes=["SimpleTaskPool"], sizes=[3, 4, None, None, None], max_num=6, p_worker_raise=0.15, p_cb_raise=0.05,
+                   ops={"spawn": 7, "stop": 8, "cancel": 3, "gate": 8, "tick": 6, "flush": 0.8, "cancel_group": 0.3, "close": 0.9, "unlock": 0.4},
                    cancel_refs=["run", "live", "live", "stale"])
     return SimEngine(
         "C14",
